@@ -24,7 +24,10 @@ StringClasses == {"int_like", "float_like", "exp_like", "hex_like", "octal_like"
                   "flow_seq", "flow_map", "anchor", "alias", "tag_bang", "percent", "at_sign", "backquote", "single_quote",
                   "double_quote", "backslash", "nonascii", "control", "tab", "long_line", "question", "pipe", "gt",
                   \* characters JSON encoders escape for HTML, and text that looks like such an escape
-                  "html_chars", "escape_like"}
+                  "html_chars", "escape_like",
+                  \* characters outside the BMP, the Unicode line separators, the solidus: JSON encoders differ in how they
+                  \* escape them (surrogate pairs, raw, \/) - the same document whoever wrote the JSON
+                  "nonbmp", "line_sep", "solidus"}
 NumberClasses == {"big_int_2p53p1", "uint64_max", "float_1e21", "float_0_1", "neg_zero", "float_integral", "small_exp"}
 Positions == {"description", "enum", "default", "example", "extension", "propname", "extkey"}
 NumPositions == {"extension", "example", "default_num"}
